@@ -700,6 +700,9 @@ func mutName(p *TxPlan) string {
 	if p.Intent.WrongChain {
 		return "chain-id"
 	}
+	if p.Intent.EmptyChain {
+		return "chain-id.empty"
+	}
 	if p.Intent.Mut != nil {
 		return p.Intent.Mut.Field + "." + p.Intent.Mut.How
 	}
@@ -879,6 +882,9 @@ func (w *World) checkEvmShouldFail(h int64, idx int, p *TxPlan, r *abci.Response
 	price := tx.GasPrice.ToBig()
 	if _, valid := verifySig(tx, m.ChainID); !valid {
 		return
+	}
+	if len(tx.To) != 20 || len(tx.From) != 20 {
+		return // malformed address fields are rejected before anything runs
 	}
 	if tx.Nonce != m.Nonce(from) || price.Cmp(gov.GasPrice) != 0 || tx.Amount.ToBig().Cmp(two255) >= 0 || tx.Gas > 24_000_000 {
 		return
